@@ -109,7 +109,13 @@ func (w *World) oracleC05(pre *Snapshot, op Op, post *Snapshot, decision bool, b
 				if l, ok := lim.userRes(p, app.User); ok {
 					w.Tag("c05-decision-under-user-limit")
 					for k, v := range b.A.Res {
-						if lv, def := l[k]; def && v > 0 && ut.Usage[p][k] > lv {
+						// only a decision that raised the usage can have taken it above the limit (usage above a limit may
+						// exist because of RM forced allocations; a placeholder replacement in flight adds nothing)
+						var before int64
+						if pu := pre.Users[app.User]; pu != nil {
+							before = pu.Usage[p][k]
+						}
+						if lv, def := l[k]; def && v > 0 && ut.Usage[p][k] > lv && ut.Usage[p][k] > before {
 							w.vio("C05", "scheduling %s took user %s in %s to %s=%d above the configured limit %d (latest configuration)", b.A.Key, app.User, p, k, ut.Usage[p][k], lv)
 						}
 					}
@@ -119,7 +125,11 @@ func (w *World) oracleC05(pre *Snapshot, op Op, post *Snapshot, decision bool, b
 						w.Tag("c05-decision-under-group-limit")
 						if gt := post.Groups[group]; gt != nil {
 							for k, v := range b.A.Res {
-								if lv, def := l[k]; def && v > 0 && gt.Usage[p][k] > lv {
+								var before int64
+								if pg := pre.Groups[group]; pg != nil {
+									before = pg.Usage[p][k]
+								}
+								if lv, def := l[k]; def && v > 0 && gt.Usage[p][k] > lv && gt.Usage[p][k] > before {
 									w.vio("C05", "scheduling %s took group %s in %s to %s=%d above the configured limit %d (latest configuration)", b.A.Key, group, p, k, gt.Usage[p][k], lv)
 								}
 							}
@@ -243,3 +253,9 @@ func (w *World) CheckTrackersDrained() {
 		}
 	}
 }
+
+// UserResFor returns the maximum resources in force for the user on the queue path according to the configuration.
+func (l *LimitRef) UserResFor(p, u string) (Res, bool) { return l.userRes(p, u) }
+
+// UserAppsFor returns the maximum applications in force for the user on the queue path.
+func (l *LimitRef) UserAppsFor(p, u string) (uint64, bool) { return l.userApps(p, u) }
